@@ -103,7 +103,7 @@ func vArbJob(tag string, n int, pipeline string) *PipelineJob {
 		st := verifTime(c)
 		j.Start = &st
 		// a started job that is over may carry its end instant (any instant from its creation on)
-		if verifChoose(tag+"?ended", 2) == 1 {
+		if verifBound("noend", 0) == 0 && verifChoose(tag+"?ended", 2) == 1 {
 			verifAssume(verifOr(j.Completed, j.Canceled))
 			e := verifInt64Range(tag+".end", 1, 1<<61)
 			verifAssume(e >= c)
